@@ -6,7 +6,7 @@ from .. import engine as E
 from .. import catalogue as K
 from .. import speccheck as S
 
-THEOREMS = ["c08_missing_state_iff", "c08_selected_by_own_key", "c08_missing_reports", "c08_struct_runs_fields"]
+THEOREMS = ["c08_missing_state_iff", "c08_selected_by_own_key", "c08_missing_reports", "c08_struct_runs_fields", "c08_struct_value_shape", "c08_absent_key_default"]
 
 
 def run(ctx, H):
